@@ -394,3 +394,22 @@ func isNearTie(x ref.X, e int) bool {
 	rem.Mul(rem, big.NewInt(500000))
 	return rem.Cmp(d) < 0
 }
+
+// prior returns the value a pointer-receiver method finds in its receiver before the call, as a pure function
+// of the case identity h (so that replay files need no extra field): callers reuse variables, and what a
+// decoding method stores must not depend on what was there. A quarter of the cases get the fresh zero value,
+// the others all-ones, the largest negative finite value, an infinity, or arbitrary bits.
+func prior(h uint64) d128.Decimal {
+	h = splitmix(h ^ 0x7072696f72)
+	switch h & 7 {
+	case 0, 1:
+		return d128.Decimal{}
+	case 2:
+		return D{^uint64(0), ^uint64(0)}.Dec()
+	case 3:
+		return D{0xdffe27ffffffffff, ^uint64(0)}.Dec()
+	case 4:
+		return D{0x7800000000000000, 0}.Dec()
+	}
+	return D{splitmix(h + 1), splitmix(h + 2)}.Dec()
+}
